@@ -217,13 +217,18 @@ fn run_threads(ctx: &Ctx, l: &mut Local) {
                 if ctx.quick() && alg != "mpqs" && bits > 120 && bits % 4 != 0 {
                     continue;
                 }
-                let a = bits / 2 - r.below(3) as u32;
-                let p = gen_prime(a, r.next());
-                let q = gen_prime(bits - a, r.next());
-                if p == q {
-                    continue;
+                // three inputs per size in the upper range of MPQS (its threaded path has its own block schedule;
+                // the multiplier moves the size the parameters see by up to 6 bits)
+                let per_size = if alg == "mpqs" && bits >= 140 { ctx.pick(3, 4) } else { ctx.pick(1, 2) };
+                for _ in 0..per_size {
+                    let a = bits / 2 - r.below(3) as u32;
+                    let p = gen_prime(a, r.next());
+                    let q = gen_prime(bits - a, r.next());
+                    if p == q {
+                        continue;
+                    }
+                    base_cases.push(mk_case("size-sweep", vec![p, q], alg, PrefSpec::default()));
                 }
-                base_cases.push(mk_case("size-sweep", vec![p, q], alg, PrefSpec::default()));
             }
         }
     }
